@@ -16,7 +16,8 @@ PID = 'C10'
 A3 = Schema('A3', [
     Opt('int', 'i', '', 5, 'w'), Opt('int', 'il', 'L', [b'1', b'2'], 'w'), Opt('str', 's', '', b'd', 'w'), Opt('str', 'sl', 'L', None, 'w'),
     Opt('float', 'f', '', 1.5, 'w'), Opt('float', 'fl', 'L', [b'1.5'], 'w'), Opt('bool', 'b', '', False), Opt('bool', 'bl', 'L', [b'true']),
-    Opt('int', 'n', 'N', None, 'w'), Opt('sec', 'mt', 'MT', sub=[Opt('int', 'x', '', 1)])])
+    Opt('int', 'n', 'N', None, 'w'), Opt('sec', 'mt', 'MT', sub=[Opt('int', 'x', '', 1)]),
+    Opt('ptr', 'p', '', None, 'pf'), Opt('ptr', 'pl', 'L', None, 'pf'), Opt('int', 'ic', '', 5, 'p'), Opt('str', 'scl', 'L', [b'a'], 'p')])      # values made by a parse callback
 
 P = lambda text: ('parse', text)
 
@@ -44,6 +45,14 @@ def builders(name):
         return [('set', 'bool', b'b', 1, None), ('setcomment', b'b', b'c'), P(b'b = yes')]
     if name == 's':
         return [('set', 'str', b's', b'v', None), ('setcomment', b's', b'c'), P(b's = q'), ('setmulti', b's', [b'm'])]
+    if name == 'p':
+        return [('setopt', b'p', b'v'), ('setcomment', b'p', b'c'), P(b'p = w')]
+    if name == 'pl':
+        return [('setopt', b'pl', b'v'), ('setmulti', b'pl', [b'a', b'b']), ('setcomment', b'pl', b'c'), P(b'pl = {}'), P(b'pl += {u}')]
+    if name == 'ic':
+        return [('setopt', b'ic', b'v'), ('set', 'int', b'ic', 7, None), ('setcomment', b'ic', b'c'), P(b'ic = w')]
+    if name == 'scl':
+        return [('setopt', b'scl', b'v'), ('setmulti', b'scl', [b'a', b'b']), ('setcomment', b'scl', b'c'), P(b'scl = {}')]
     if name == 'mt':
         return [('addtsec', b'mt', b'a'), ('addtsec', b'mt', b'b'), ('rmnsec', b'mt', 0), ('setcomment', b'mt', b'c'), P(b'mt a { x = 3 }'),
                 ('set', 'int', b'mt=a|x', 7, None)]
@@ -62,6 +71,16 @@ def bad_multis(good, bad, nmax=3):
 def refusals(name):
     """(label, w_mode, op) - every one must fail and change nothing"""
     R = []
+    if name in ('p', 'pl', 'ic', 'scl'):
+        # the option's own parse callback refuses the text: the k-th conversion of the call fails (label cbfail<k>)
+        nm = name.encode()
+        R.append(('callback-refuses-text', 0, ('setopt', nm, b'zz'), 'cbfail1'))
+        for n in ((1, 2, 3) if name in ('pl', 'scl') else (1,)):
+            for k in range(1, n + 1):
+                R.append(('bulk-set-callback-refuses@%d/%d' % (k, n), 0, ('setmulti', nm, [b'q%d' % j for j in range(n)]), 'cbfail%d' % k))
+        R.append(('bulk-set-empty', 0, ('setmulti', nm, []), None))
+        R.append(('section-call-on-value', 0, ('addtsec', nm, b'a'), None))
+        return R
     kind = {'i': 'int', 'il': 'int', 'n': 'int', 'f': 'float', 'fl': 'float', 'b': 'bool', 'bl': 'bool', 's': 'str', 'sl': 'str'}.get(name)
     val = {'int': 7, 'float': 2.5, 'bool': 1, 'str': b'v'}.get(kind)
     nm = name.encode()
@@ -136,6 +155,8 @@ def shard(sh):
             lines.append('dump A 7')
             lines.append('w_mode %d' % wmode)
             l, prefix = line_of(op)
+            if need and need.startswith('cbfail'):
+                lines.append('cb_fail %s' % need[6:])
             lines.append('note refused call')
             lines.append(l)
             lines.append('snapshot A/%s' % name)
@@ -190,7 +211,7 @@ def main():
     depth = 4 if quick else 5
     shards = []
     total_refusals = 0
-    for name in ('i', 'il', 'n', 'f', 'fl', 'b', 'bl', 's', 'sl', 'mt'):
+    for name in ('i', 'il', 'n', 'f', 'fl', 'b', 'bl', 's', 'sl', 'mt', 'p', 'pl', 'ic', 'scl'):
         B = builders(name)
         total_refusals += len(refusals(name))
         hists = [()]
@@ -199,7 +220,7 @@ def main():
         for ch in engine.chunks(hists, 6):
             shards.append((name, ch, ck.deadline))
     ck.cov['refusing_calls'] = total_refusals
-    engine.phase(ck, 'option states built by <= %d operations x refusing calls' % depth, shard, shards, options=10)
+    engine.phase(ck, 'option states built by <= %d operations x refusing calls' % depth, shard, shards, options=14)
     ck.assumptions = ['option states are those reachable by <= %d builder operations (API calls and parses) per option' % depth,
                       'a rejected *parse* is not a refused update in the sense of this property and is not checked here']
     ck.finish('option state (history of builder ops) x refusing call (bulk set with the bad element at every position, veto, wrong type, '
